@@ -28,7 +28,7 @@ def dispatch (cmd : String) (a : Args) : Except String String :=
   else if cmd.startsWith "ml." then Drv.Mem.run cmd a
   else if cmd == "conn" || cmd == "qconn" then Drv.Conn.run cmd a
   else if cmd == "enc" || cmd == "specdec" then Drv.Enc.run cmd a
-  else if cmd == "dec" then Drv.Dec.run cmd a
+  else if cmd == "dec" || cmd == "callw" then Drv.Dec.run cmd a
   else if cmd.startsWith "didc." then Drv.DidCodec.run cmd a
   else throw s!"unknown command {cmd}"
 
